@@ -32,7 +32,29 @@ STREAMS["ignore"] = {
     "selftest": {"good": 'CExcl [mkRule (s2l "**/a") false false] (s2l "x/a") (true, false)', "bad": 'CExcl [mkRule (s2l "**/a") false false] (s2l "x/ab") (true, false)'},
 }
 
+STREAMS["unpack"] = {"name": "unpack", "corr": "Corr.RunUnpack"}
+_FS_ASSUME = [
+    "modelled, not verified: the kernel's path resolution and lstat/stat/mkdir/open(O_CREAT|O_TRUNC)/symlink/chmod/utimensat, Go's os.MkdirAll, filepath.Join/Clean/Rel/Dir on clean absolute paths (FS/FS.v, Slug/Unpack.v); validated on every run: each case executes the real Unpack in a chrooted child whose root is the model's root, and the whole final tree is compared",
+    "archive/tar + compress/gzip are exercised for real (USTAR/PAX/GNU); the model starts at the decoded entry list; reader faults are run against the implementation with the direct oracle only",
+    "directory search/write permission for non-root users, atime/ctime, symlink mtimes and file bodies > 64 bytes are not modelled (not compared)",
+]
+
 PROPS = {
+    "C01": {
+        "streams": ["unpack"],
+        "theorems": "C01_unpack_outside_unchanged (for every fs, clean absolute dst that is a real directory chain, every entry list, allow list, privilege and result class: fs' = put fs dst d), C01_fault_prefix, C01_lexical_resolution; by induction over entries with invariants over the abstract file system (1,000+ lines FS/FSProofs.v, Slug/UnpackSafe.v)",
+        "assumptions": _FS_ASSUME,
+    },
+    "C04": {
+        "streams": ["unpack"],
+        "theorems": "C04_lexical (accepted targets are lexically inside dst), C04_refuted (the physical statement is false of model and code: known finding KF-C04-1), C04_links_never_written_through",
+        "assumptions": _FS_ASSUME,
+    },
+    "C15": {
+        "streams": ["unpack"],
+        "theorems": "C15_unsupported_fails, C15_success_means_all_supported (all entry lists); the sequential-reading semantics is the executable model itself, compared with the implementation (whole final tree) and with an independent Go reference interpreter; C15_sequential_reading is a concrete instance, not the general refinement theorem",
+        "assumptions": _FS_ASSUME + ["partial: 'the model's unpack equals a declarative last-writer-wins tree' is not proved as a theorem; it is checked per run by the reference interpreter on the implementation"],
+    },
     "C03": {
         "streams": ["ignore"],
         "theorems": "C03_compile_correct (pattern->regexp translation = segment-wise glob specification, all well-formed patterns x all newline-free paths), C03_negations_after_exact/_over, C03_last_match_wins, C03_dominating_sound, C03_prune_eq_filter (all trees), C03_defaults",
